@@ -63,6 +63,7 @@
 #include "upipe/uref_block_flow.h"
 #include "upipe/uref_clock.h"
 #include "upipe/uref_pic_flow.h"
+#include "upipe/uref_sound_flow.h"
 #include "upipe/uref_pic.h"
 #include "upipe/uref_sound.h"
 #include "upipe/ubuf.h"
@@ -140,7 +141,7 @@ static int track_control(struct uref_mgr *mgr, int cmd, va_list args)
  * every flow definition they receive and the tag of every buffer, followed by
  * "flnow" when that flow is still the one set on the input the buffer was fed to. */
 bool pd_fltag;
-static struct { char name[8]; char fl[80]; unsigned hsize, vsize; } fltab[MAXOBJ];
+static struct { char name[8]; char fl[80]; unsigned hsize, vsize, ssize; } fltab[MAXOBJ];
 
 const char *pd_fl_of(struct uref *fd)
 {
@@ -166,6 +167,8 @@ void pd_fl_note(const char *name, struct uref *fd)
     uint64_t v = 0;
     fltab[k].hsize = ubase_check(uref_pic_flow_get_hsize(fd, &v)) ? (unsigned)v : 0;
     fltab[k].vsize = ubase_check(uref_pic_flow_get_vsize(fd, &v)) ? (unsigned)v : 0;
+    uint8_t ss = 0;
+    fltab[k].ssize = ubase_check(uref_sound_flow_get_sample_size(fd, &ss)) ? ss : 0;
 }
 
 void pd_fl_tag(const char *name, struct uref *u)
@@ -195,6 +198,13 @@ static bool pd_fl_current(struct uref *u)
     for (int i = 0; i < MAXOBJ; i++)
         if (!strcmp(fltab[i].name, flp)) return !strcmp(fltab[i].fl, fl);
     return false;
+}
+
+unsigned pd_fl_sample_size(const char *name)
+{
+    for (int i = 0; i < MAXOBJ; i++)
+        if (!strcmp(fltab[i].name, name) && fltab[i].ssize) return fltab[i].ssize;
+    return 0;
 }
 
 void pd_fl_reset(void) { memset(fltab, 0, sizeof(fltab)); pd_fltag = false; }
@@ -486,6 +496,9 @@ static void vsink_input(struct upipe *upipe, struct uref *uref, struct upump **u
     uref_free(uref);
 }
 
+/* an extension may build the buffer manager that a flow format asks for (pictures, sound) */
+__attribute__((weak)) struct ubuf_mgr *pd_ubuf_mgr_for(struct uref *flow_format);
+
 int provide(struct urequest *r, const char *who)
 {
     printf("provide %s %s type=%d\n", who, req_name(r), r->type);
@@ -493,7 +506,8 @@ int provide(struct urequest *r, const char *who)
     case UREQUEST_UREF_MGR: return urequest_provide_uref_mgr(r, uref_mgr_use(g_uref));
     case UREQUEST_UBUF_MGR: {
         struct uref *fd = r->uref ? uref_dup(r->uref) : NULL;
-        return urequest_provide_ubuf_mgr(r, ubuf_mgr_use(g_block), fd);
+        struct ubuf_mgr *m = (pd_ubuf_mgr_for && r->uref) ? pd_ubuf_mgr_for(r->uref) : NULL;
+        return urequest_provide_ubuf_mgr(r, m ? m : ubuf_mgr_use(g_block), fd);
     }
     case UREQUEST_UCLOCK: return urequest_provide_uclock(r, uclock_use(g_uclock));
     case UREQUEST_FLOW_FORMAT: return urequest_provide_flow_format(r, r->uref ? uref_dup(r->uref) : NULL);
@@ -522,6 +536,8 @@ static int vsink_control(struct upipe *upipe, int command, va_list args)
         if (s->reqmode == 2) return UBASE_ERR_UNHANDLED;
         if (s->reqmode == 1) return upipe_throw_provide_request(upipe, r);
         if (s->nregs < 16) s->regs[s->nregs++] = r;
+        /* mode 3 (answer): the sink answers from inside register_request, as most real sinks do */
+        if (s->reqmode == 3) return provide(r, s->name);
         return UBASE_ERR_NONE;
     }
     case UPIPE_UNREGISTER_REQUEST: {
@@ -736,7 +752,7 @@ static int exec_tokens(int nt, char **tok)
         } else if (!strcmp(c, "reqmode") && nt >= 3) {
             struct vsink *s = find_sink(tok[1]);
             if (!s) { ret(-1); return 0; }
-            s->reqmode = !strcmp(tok[2], "throw") ? 1 : !strcmp(tok[2], "refuse") ? 2 : 0;
+            s->reqmode = !strcmp(tok[2], "throw") ? 1 : !strcmp(tok[2], "refuse") ? 2 : !strcmp(tok[2], "answer") ? 3 : 0;
             ret(0);
         } else if (!strcmp(c, "setfd") && nt >= 3) {
             struct upipe *up = find_any(tok[1]);
